@@ -30,28 +30,28 @@ Section Pure.
   Definition p_Cn2he := do T <- CR; Ok (t_Cn2he T).
 
   Definition p_edge_id (u v : Z) : res (option Z) :=
-    do _ <- p_guard1 guard_edge_id; do t <- Ok EID; Ok (zzget (keyify2 u v) t).
+    do _ <- p_guard1 guard_edge_id; do t <- Ok EID; Ok (zzget (g_edge_id_key u v) t).
 
   Definition p_edge_at (E : Z) : res (Z * Z) := of_opt EIndex (zth (m_edges m) E).
 
   Definition p_other_edge_end (E V : Z) : res (option Z) :=
     do _ <- p_guard1 guard_other_edge_end; do ab <- p_edge_at E;
     let '(A, B) := ab in
-    Ok (if V =? A then Some B else if V =? B then Some A else None).
+    Ok (g_other_edge_end V A B).
 
   Definition p_vertex_to_vertices (V : Z) : res (list Z) :=
     do _ <- p_guard1 guard_vertex_to_vertices; do t <- p_adjV2V; of_opt EKey (zget V t).
 
   Definition p_vertex_to_edges (V : Z) : res (list (option Z)) :=
-    do _ <- p_guard1 guard_vertex_to_edges; do l <- p_vertex_to_vertices V; mapM (fun u => p_edge_id V u) l.
+    do _ <- p_guard1 guard_vertex_to_edges; do l <- p_vertex_to_vertices V; mapM (fun u => let c := g_vertex_to_edges_call V u in p_edge_id (fst c) (snd c)) l.
 
   Definition p_edge_to_vertices (E : Z) : res (Z * Z) := do _ <- p_guard1 guard_edge_to_vertices; p_edge_at E.
 
   Definition p_face_id (vs : list Z) : res (option Z) :=
-    do _ <- p_guard1 guard_face_id; do t <- Ok FID; Ok (lget (zsort vs) t).
+    do _ <- p_guard1 guard_face_id; do t <- Ok FID; Ok (lget (g_face_id_key vs) t).
 
   Definition p_vertex_to_corners (V : Z) : res (option (list Z)) :=
-    do _ <- p_guard1 guard_vertex_to_corners; do t <- p_adjV2Cn; Ok (zget V t).
+    do _ <- p_guard1 guard_vertex_to_corners; do t <- p_adjV2Cn; Ok (zget (g_vertex_to_corners_key V) t).
 
   Definition p_corner_to_face (C : Z) : res Z :=
     do _ <- p_guard1 guard_corner_to_face; do vf <- of_opt EIndex (zth (m_corners m) C); Ok (snd vf).
@@ -61,7 +61,7 @@ Section Pure.
     match cs with None => Err EType | Some l => mapM p_corner_to_face l end.
 
   Definition p_vertex_to_corner_in_face (V F : Z) : res (option Z) :=
-    do _ <- p_guard1 guard_vertex_to_corner_in_face; do t <- p_adjVF2Cn; Ok (zzget (V, F) t).
+    do _ <- p_guard1 guard_vertex_to_corner_in_face; do t <- p_adjVF2Cn; Ok (zzget (g_vcif_key V F) t).
 
   Definition p_corner_field (g : option (attr * comp1)) (slot : nat) (C : Z) : res (option Z) :=
     do _ <- p_guard1 g; do c2h <- p_Cn2he;
@@ -74,7 +74,7 @@ Section Pure.
   Definition p_opposite_corner := p_corner_field guard_opposite_corner slot_opposite_corner.
 
   Definition p_corner_to_half_edge (C : Z) : res (option (Z * Z)) :=
-    do _ <- p_guard1 guard_corner_to_half_edge; do t <- p_Cn2he; Ok (zget C t).
+    do _ <- p_guard1 guard_corner_to_half_edge; do t <- p_Cn2he; Ok (zget (g_c2he_key C) t).
 
   Definition p_half_edge_to_corner (u v : Z) : res (option Z) :=
     do _ <- p_guard1 guard_half_edge_to_corner; do he <- p_he;
@@ -88,33 +88,38 @@ Section Pure.
     match zzget (key_direct_face u v) he with Some r => Ok (skipn slot_direct_face_from r) | None => Ok [None; None; None] end.
 
   Definition p_edge_to_faces (u v : Z) : res (list (option Z)) :=
-    do _ <- p_guard1 guard_edge_to_faces; do a <- p_direct_face u v; do b <- p_direct_face v u; Ok [a; b].
+    do _ <- p_guard1 guard_edge_to_faces;
+    let '(c1, c2) := g_edge_to_faces_calls u v in
+    do a <- p_direct_face (fst c1) (snd c1); do b <- p_direct_face (fst c2) (snd c2); Ok [a; b].
 
   Definition p_opposite_face (u v F : Z) : res (option Z) :=
-    do _ <- p_guard1 guard_opposite_face; do F1 <- p_direct_face u v; do F2 <- p_direct_face v u;
-    Ok (if oz_eqb F1 F then F2 else if oz_eqb F2 F then F1 else None).
+    do _ <- p_guard1 guard_opposite_face;
+    let '(c1, c2) := g_opposite_face_calls u v in
+    do F1 <- p_direct_face (fst c1) (snd c1); do F2 <- p_direct_face (fst c2) (snd c2);
+    Ok (g_opposite_face_ret F F1 F2).
 
   Definition p_unpack3 (l : list (option Z)) : res (option Z * option Z * option Z) :=
     match l with [a; b; c] => Ok (a, b, c) | _ => Err EType end.
 
   Definition p_opposite_face_inds (u v F : Z) : res (list (option Z)) :=
     do _ <- p_guard1 guard_opposite_face;
-    do t1 <- p_direct_face_inds u v; do x1 <- p_unpack3 t1;
-    do t2 <- p_direct_face_inds v u; do x2 <- p_unpack3 t2;
-    let '(F1, u1, v1) := x1 in
-    let '(F2, v2, u2) := x2 in
-    Ok (if oz_eqb F1 F then [F2; u2; v2] else if oz_eqb F2 F then [F1; u1; v1] else [None; None; None]).
+    let '(c1, c2) := g_opposite_face_inds_calls u v in
+    do t1 <- p_direct_face_inds (fst c1) (snd c1); do x1 <- p_unpack3 t1;
+    do t2 <- p_direct_face_inds (fst c2) (snd c2); do x2 <- p_unpack3 t2;
+    let '(a0, a1, a2) := x1 in
+    let '(b0, b1, b2) := x2 in
+    Ok (g_opposite_face_inds_ret F a0 a1 a2 b0 b1 b2).
 
   Definition p_face_at (F : Z) : res (list Z) := of_opt EIndex (zth (m_faces m) F).
 
   Fixpoint p_common_edge_loop (F1 : list Z) (n iF1 iF2 : Z) (is : list Z) : res (list (option Z)) :=
     match is with
-    | [] => Ok [None; None]
+    | [] => Ok g_common_edge_default
     | i :: t =>
-        do A <- of_opt EIndex (zth F1 i);
-        do B <- of_opt EIndex (zth F1 ((i + 1) mod n));
-        do o <- p_opposite_face A B iF1;
-        if oz_eqb o iF2 then Ok (let k := keyify2 A B in [Some (fst k); Some (snd k)])
+        do A <- of_opt EIndex (zth F1 (fst (g_common_edge_idx i n)));
+        do B <- of_opt EIndex (zth F1 (snd (g_common_edge_idx i n)));
+        do o <- (let c := g_common_edge_call A B iF1 iF2 in p_opposite_face (fst (fst c)) (snd (fst c)) (snd c));
+        if g_common_edge_test o A B iF1 iF2 then Ok (g_common_edge_ret A B iF1 iF2)
         else p_common_edge_loop F1 n iF1 iF2 t
     end.
   Definition p_common_edge (iF1 iF2 : Z) : res (list (option Z)) :=
@@ -124,20 +129,22 @@ Section Pure.
   Definition p_face_to_vertices (F : Z) : res (list Z) := do _ <- p_guard1 guard_face_to_vertices; p_face_at F.
 
   Definition p_in_face_index (F V : Z) : res (option Z) :=
-    do _ <- p_guard1 guard_in_face_index; do lF <- p_face_at F; Ok (index_of V lF 0).
+    do _ <- p_guard1 guard_in_face_index; do lF <- p_face_at F; Ok (in_face_index_loop F V lF 0).
 
   Definition p_face_to_edges (F : Z) : res (list (option Z)) :=
     do _ <- p_guard1 guard_face_to_edges; do lF <- p_face_at F;
     let n := zlen lF in
-    mapM (fun i => do a <- of_opt EIndex (zth lF i); do b <- of_opt EIndex (zth lF ((i + 1) mod n)); p_edge_id a b)
+    mapM (fun i => do a <- of_opt EIndex (zth lF (fst (g_face_to_edges_idx i n)));
+                   do b <- of_opt EIndex (zth lF (snd (g_face_to_edges_idx i n))); p_edge_id a b)
          (zrange n).
 
   Definition p_face_to_first_corner (F : Z) : res Z :=
-    do _ <- p_guard1 guard_face_to_first_corner; do t <- p_adjF2Cn; of_opt EKey (zget F t).
+    do _ <- p_guard1 guard_face_to_first_corner; do t <- p_adjF2Cn;
+    do c0 <- of_opt EKey (zget (g_ftfc_key F) t); Ok (g_ftfc_ret F c0).
 
   Definition p_face_to_corners (F : Z) : res (list Z) :=
     do _ <- p_guard1 guard_face_to_corners; do lF <- p_face_at F;
-    mapM (fun i => do t <- p_adjF2Cn; do c <- of_opt EKey (zget F t); Ok (c + i)) (zrange (zlen lF)).
+    mapM (fun i => do t <- p_adjF2Cn; do c <- of_opt EKey (zget (g_ftc_key F i) t); Ok (g_ftc_elem F c i)) (zrange (zlen lF)).
 
   Definition p_face_to_faces (F : Z) : res (list Z) :=
     do _ <- p_guard1 guard_face_to_faces; do cs <- p_face_to_corners F;
@@ -156,18 +163,26 @@ Section Pure.
     match es with
     | [] => Ok (inte, bnd)
     | (e, (u, v)) :: t =>
-        do b <- p_is_edge_on_border u v;
-        if b then p_ib_edges_loop t inte (bnd ++ [e]) else p_ib_edges_loop t (inte ++ [e]) bnd
+        do b <- (let c := g_ibe_call e u v in p_is_edge_on_border (fst c) (snd c));
+        let ib := ib_push (if g_ibe_test b e u v then g_ibe_then e u v else g_ibe_else e u v) (inte, bnd) in
+        p_ib_edges_loop t (fst ib) (snd ib)
     end.
   (* (interior, boundary) as _compute_interior_boundary_edges leaves them *)
   Definition IBE : res (list Z * list Z) := p_ib_edges_loop (enumerate (m_edges m)) [] [].
 
   Definition p_guard_edges (g : option attr) : res unit :=
     match g with Some _ => do _ <- IBE; Ok tt | None => Ok tt end.
+  (* return self.<list attribute>, for the two edge lists *)
+  Definition p_rd_elist (a : attr) : res (list Z) :=
+    match a with
+    | A_boundary_edges => do ib <- IBE; Ok (snd ib)
+    | A_interior_edges => do ib <- IBE; Ok (fst ib)
+    | _ => Err EAttr    (* a vertex list / another attribute: depends on what else was computed *)
+    end.
   Definition p_boundary_edges : res (list Z) :=
-    do _ <- p_guard_edges gattr_boundary_edges; do ib <- IBE; Ok (snd ib).
+    do _ <- p_guard_edges gattr_boundary_edges; p_rd_elist gret_boundary_edges.
   Definition p_interior_edges : res (list Z) :=
-    do _ <- p_guard_edges gattr_interior_edges; do ib <- IBE; Ok (fst ib).
+    do _ <- p_guard_edges gattr_interior_edges; p_rd_elist gret_interior_edges.
 
   Fixpoint p_ib_verts_loop (es : list Z) (attr : zmap bool) (bset : list Z) : res (zmap bool * list Z) :=
     match es with
@@ -175,22 +190,29 @@ Section Pure.
     | e :: t =>
         do ab <- p_edge_at e;
         let '(a, b) := ab in
-        p_ib_verts_loop t (zset b true (zset a true attr)) (set_add b (set_add a bset))
+        p_ib_verts_loop t (fold_left (fun tb kv => zset (fst kv) (snd kv) tb) (g_ibv_marks a b) attr)
+                          (fold_left (fun s x => set_add x s) (g_ibv_adds a b) bset)
     end.
   (* (is_vertex_on_border attribute, boundary vertices, interior vertices) *)
   Definition IBV : res (zmap bool * list Z * list Z) :=
     do be <- p_boundary_edges;
     do r <- p_ib_verts_loop be zempty [];
-    Ok (fst r, snd r, filter (fun x => negb (vb_get (fst r) x)) (zrange (m_nv m))).
+    Ok (fst r, snd r, map g_ibv_interior_val (filter (fun x => g_ibv_interior_test (vb_get (fst r) x) x) (zrange (m_nv m)))).
 
   Definition p_guard_verts (g : option attr) : res unit :=
     match g with Some _ => do _ <- IBV; Ok tt | None => Ok tt end.
+  Definition p_rd_vlist (a : attr) : res (list Z) :=
+    match a with
+    | A_boundary_vertices => do r <- IBV; Ok (snd (fst r))
+    | A_interior_vertices => do r <- IBV; Ok (snd r)
+    | _ => Err EAttr
+    end.
   Definition p_boundary_vertices : res (list Z) :=
-    do _ <- p_guard_verts gattr_boundary_vertices; do r <- IBV; Ok (snd (fst r)).
+    do _ <- p_guard_verts gattr_boundary_vertices; p_rd_vlist gret_boundary_vertices.
   Definition p_interior_vertices : res (list Z) :=
-    do _ <- p_guard_verts gattr_interior_vertices; do r <- IBV; Ok (snd r).
+    do _ <- p_guard_verts gattr_interior_vertices; p_rd_vlist gret_interior_vertices.
   Definition p_is_vertex_on_border (u : Z) : res bool :=
-    do _ <- p_guard_verts gattr_is_vertex_on_border; do r <- IBV; Ok (vb_get (fst (fst r)) u).
+    do _ <- p_guard_verts gattr_is_vertex_on_border; do r <- IBV; Ok (vb_get (fst (fst r)) (g_is_vertex_on_border_key u)).
 
   Definition rmap {X Y} (f : X -> Y) (r : res X) : res Y := do x <- r; Ok (f x).
 
